@@ -69,7 +69,16 @@ fn main() {
             let tables: Vec<data::Table> = case["tables"].as_array().expect("tables").iter().filter_map(data::Table::from_json).collect();
             let sql = args.get(3).cloned().unwrap_or_else(|| case["engine_sql"].as_str().unwrap_or("").to_string());
             let rsql = args.get(4).cloned().or_else(|| args.get(3).cloned()).unwrap_or_else(|| case["reference_sql_full"].as_str().unwrap_or("").to_string());
-            let ctx = eng::mem_ctx(&tables);
+            let ctx = match std::env::var("MEM").ok().and_then(|s| s.parse::<usize>().ok()) {
+                Some(limit) => {
+                    let mut c = query_engine::ExecutionContext::with_memory_limit(limit);
+                    for t in &tables {
+                        c.register_table(t.name.clone(), t.schema(), t.even_batches((t.rows.len() / 5).max(1)));
+                    }
+                    std::sync::Arc::new(c)
+                }
+                None => eng::mem_ctx(&tables),
+            };
             let dfc = eng::df_ctx(&tables);
             println!("engine   : {}", sql);
             match eng::run_sql(&ctx, &sql) {
